@@ -340,6 +340,37 @@ def twin_classes_check():
         ('attrs', at({'id': attr.ib(), 'tag': attr.ib(default='t')}), dict(id=3, tag='u'), "sec_extras.Row(id=3, tag='u')"),
         ('attrs', at({'id': attr.ib(), 'flag': attr.ib(default=False), 'secret': attr.ib(default=0, repr=False)}), dict(id=4, flag=True), 'sec_extras.Row(id=4, flag=True)'),
     ]
+    # an attrs class with a default that depends on the instance (@x.default / Factory(takes_self=True)): computed per instance, never
+    # remembered per class; and one with an attribute that is not set by __init__ and hidden from the repr (a lazily filled cache slot)
+    @attr.s
+    class Rect:
+        width = attr.ib()
+        height = attr.ib()
+
+        @height.default
+        def _height_default(self):
+            return self.width
+    Rect.__module__, Rect.__qualname__ = __name__, 'Rect'
+    setattr(sys.modules[__name__], 'Rect', Rect)
+
+    @attr.s
+    class Cached:
+        key = attr.ib()
+        slot = attr.ib(init=False, repr=False)
+    Cached.__module__, Cached.__qualname__ = __name__, 'Cached'
+    setattr(sys.modules[__name__], 'Cached', Cached)
+    for inst, want in ((Rect(3), 'sec_extras.Rect(width=3)'), (Rect(5, 3), 'sec_extras.Rect(width=5, height=3)'), (Rect(5), 'sec_extras.Rect(width=5)'),
+                       (Rect(3, 5), 'sec_extras.Rect(width=3, height=5)'), (Cached('k'), "sec_extras.Cached(key='k')"), ([Cached(1)], '[sec_extras.Cached(key=1)]')):
+        with warnings.catch_warnings(record=True) as w:
+            warnings.simplefilter('always')
+            try:
+                got = pp.pformat(inst, width=200)
+            except Exception as e:
+                got = 'EXC:' + type(e).__name__
+        if got != want or w:
+            bad.append({'kind': 'extras-field-selection', 'why': 'printed %r, prescribed %r%s' % (got[:150], want, ' (with a warning: %s)' % str(w[0].message)[:80] if w else ''),
+                        'class': type(inst).__name__, 'instance_kwargs': repr(inst)[:80]})
+            break
     order = [0, 1, 0, 2, 1, 3, 4, 3, 0]
     for k in order:
         kind, cls, kw, want = variants[k]
